@@ -686,6 +686,24 @@ _log_filter_apply(struct callsite_section *sect,
 	}
 }
 
+/*
+ * After a rule has been un-applied from a callsite, apply the rules that
+ * are still stored, so that the callsite ends up exactly as a callsite
+ * created now would.
+ */
+static void
+_log_filter_replay_to_cs(struct qb_log_callsite *cs,
+			 struct qb_list_head *list_head)
+{
+	struct qb_log_filter *flt;
+
+	qb_list_for_each_entry(flt, list_head, list) {
+		_log_filter_apply_to_cs(cs, flt->new_value, flt->conf,
+					flt->type, flt->text, flt->regex,
+					flt->high_priority, flt->low_priority);
+	}
+}
+
 /* #define _QB_FILTER_DEBUGGING_ 1 */
 static void
 _log_filter_apply_to_cs(struct qb_log_callsite *cs,
@@ -713,10 +731,12 @@ _log_filter_apply_to_cs(struct qb_log_callsite *cs,
 			qb_bit_set(cs->targets, t);
 		} else if (c == QB_LOG_FILTER_REMOVE) {
 			qb_bit_clear(cs->targets, t);
+			_log_filter_replay_to_cs(cs, &conf[t].filter_head);
 		} else if (c == QB_LOG_TAG_SET) {
 			cs->tags = t;
 		} else if (c == QB_LOG_TAG_CLEAR) {
 			cs->tags = 0;
+			_log_filter_replay_to_cs(cs, &tags_head);
 		}
 #ifdef _QB_FILTER_DEBUGGING_
 		if (old_targets != cs->targets) {
